@@ -865,7 +865,7 @@ def _mesh_families(blocks: List[List[int]]) -> List[int]:
 PTS_DISKS = ["OneCoreDisk", "QuarterDisk", "HalfDisk", "FourCoreDisk"]
 PTS_WHAT = (
     [f"sketch:{c}" for c in PTS_DISKS] + ["wrapped", "oval", "cyl:FourCoreDisk", "cyl:HalfDisk", "frustum", "grid"]
-    + [f"extr:{c}" for c in PTS_DISKS]
+    + [f"extr:{c}" for c in PTS_DISKS] + ["extr:WrappedDisk", "extr:Oval", "extr:Grid"]
 )
 
 
@@ -942,6 +942,25 @@ def run_pts(case: dict) -> dict:
                 sh = cb.Frustum(c, p2, rp, r2)
                 s1 = sh.sketch_1
                 out["req"] = f"c11.frustum {r3(c)} {r3(p2)} {r3(rp)} {R(f.norm(p2 - c))} {R(h)} {R(s1.core_ratio)} {R(s1.diagonal_ratio)} {R(r2)} {R(f.norm(rp - c))}"
+            elif cls == "WrappedDisk":
+                radius = fl(p["r"]) * fl(p["rin"]) * fr.s
+                s1 = d.WrappedDisk(c, rp, radius, n)
+                amount = fl(p["L"]) * fr.s
+                sh = cb.ExtrudedShape(s1, amount)
+                out["req"] = f"c11.extrw {r3(c)} {r3(rp)} {r3(u)} {R(h)} {R(s1.diagonal_ratio)} {R(radius)} {R(f.norm(rp - c))} {R(amount)}"
+            elif cls == "Oval":
+                c2 = fr.P(-fl(p["D"]) * math.sin(fl(p["phi"])), fl(p["D"]) * math.cos(fl(p["phi"])), 0)
+                radius = fl(p["r"]) * fr.s
+                s1 = d.Oval(c, c2, n, radius)
+                amount = fl(p["L"]) * fr.s
+                sh = cb.ExtrudedShape(s1, amount)
+                out["req"] = f"c11.extro {r3(c)} {r3(c2)} {r3(u)} {R(h)} {R(s1.core_ratio)} {R(s1.diagonal_ratio)} {R(radius)} {R(f.norm(np.cross(u, c2 - c)))} {R(amount)}"
+            elif cls == "Grid":
+                g = [fl(t) for t in p["g"]]
+                s1 = cb.Grid([g[0], g[1], 0], [g[0] + g[2], g[1] + g[3], 0], p["n"], p["m"])
+                amount = fl(p["L"])
+                sh = cb.ExtrudedShape(s1, amount)
+                out["req"] = f"c11.extrg {R(g[0])} {R(g[1])} {R(g[0] + g[2])} {R(g[1] + g[3])} {p['n']} {p['m']} {R(amount)}"
             else:
                 s1 = getattr(d, cls)(c, rp, n)
                 amount = fl(p["L"]) * fr.s
